@@ -53,6 +53,7 @@ type oracleEvent struct {
 type oracleFunc func(it *Interp, s *State, args []AV) [][]AV
 
 type State struct {
+	notes  map[string]AV // values a multi-step rule keeps between steps
 	heap   map[int]AV
 	frames []*Frame
 	trail  []trailEntry
@@ -120,6 +121,8 @@ type Interp struct {
 	absOf    map[int]*fterm
 	atomFn   map[int]string
 	atomArgs map[int][2]int
+	Precise     bool // byte-precise library models (interp_precise.go)
+	preciseKind map[int]string
 	curState  *State
 	Intervals bool // propagate float intervals through arithmetic (interp_intervals.go)
 	NonNeg   map[int]bool // atoms known to be >= 0 (answers of distance oracles)
@@ -127,8 +130,19 @@ type Interp struct {
 	inputLen   int
 }
 
+// NewInterpPrecise: like NewInterp, with the byte-precise library models on
+// from the start (package initialisers are evaluated with them, so that error
+// sentinels get identities).
+func NewInterpPrecise(p *Program, lim Limits) *Interp {
+	preciseFromStart = true
+	defer func() { preciseFromStart = false }()
+	return NewInterp(p, lim)
+}
+
+var preciseFromStart bool
+
 func NewInterp(p *Program, lim Limits) *Interp {
-	it := &Interp{p: p, lim: lim, nextCell: 1, nextSym: 1, globals: map[*ssa.Global]int{},
+	it := &Interp{p: p, lim: lim, Precise: preciseFromStart, nextCell: 1, nextSym: 1, globals: map[*ssa.Global]int{},
 		TruncWhy: map[string]int{}, Unsupported: map[string]int{}, baseHeap: map[int]AV{},
 		liveCache: map[*ssa.Function]*liveInfo{}, seen: map[uint64]bool{}}
 	it.initGlobals()
@@ -162,6 +176,12 @@ func (s *State) clone() *State {
 	}
 	n.trail = append([]trailEntry(nil), s.trail...)
 	n.events = append([]oracleEvent(nil), s.events...)
+	if s.notes != nil {
+		n.notes = make(map[string]AV, len(s.notes))
+		for k, v := range s.notes {
+			n.notes[k] = v
+		}
+	}
 	for _, f := range s.frames {
 		nf := &Frame{fn: f.fn, env: make(map[ssa.Value]AV, len(f.env)), block: f.block, prev: f.prev, pc: f.pc, call: f.call,
 			visits: make(map[*ssa.BasicBlock]int, len(f.visits)), defers: append([]*ssa.Defer(nil), f.defers...)}
@@ -873,6 +893,9 @@ func (it *Interp) load(s *State, in ssa.Instruction, p AV, t types.Type) AV {
 	}
 	cell, ok := s.heap[ptr.Cell]
 	if !ok {
+		if it.Precise && types.TypeString(t, nil) == "error" {
+			return nonNilError() // a library's error sentinel (io.EOF ...): not nil
+		}
 		return topOf(t, true)
 	}
 	v := readPath(cell, ptr.Path)
@@ -1660,6 +1683,34 @@ func knownEqual(a, b AV) (bool, bool) {
 		if ok && x.T != x.F && y.T != y.F {
 			return x.T == y.T, true
 		}
+	case IfaceV:
+		y, ok := b.(IfaceV)
+		if ok && !x.Nil && !y.Nil && !x.Top && !y.Top && !x.MayNil && !y.MayNil && !x.User && !y.User && x.Typ != nil && y.Typ != nil {
+			if !types.Identical(x.Typ, y.Typ) {
+				return false, true
+			}
+			if st, isStruct := x.Typ.Underlying().(*types.Struct); isStruct && st.NumFields() == 0 {
+				return true, true
+			}
+			if px, ok1 := x.Val.(PtrV); ok1 {
+				if py, ok2 := y.Val.(PtrV); ok2 {
+					return knownEqual(px, py)
+				}
+			}
+		}
+	case PtrV:
+		y, ok := b.(PtrV)
+		if ok && !x.Nil && !y.Nil && !x.Top && !y.Top && !x.MayNil && !y.MayNil && x.Cell > 0 && y.Cell > 0 {
+			if x.Cell != y.Cell || len(x.Path) != len(y.Path) {
+				return false, true
+			}
+			for i := range x.Path {
+				if x.Path[i] != y.Path[i] {
+					return false, true
+				}
+			}
+			return true, true
+		}
 	case ArrV:
 		y, ok := b.(ArrV)
 		if !ok || x.Elems == nil || y.Elems == nil || len(x.Elems) != len(y.Elems) {
@@ -2011,6 +2062,8 @@ func (it *Interp) convert(s *State, fr *Frame, x *ssa.Convert) AV {
 					nb := v.Bits
 					if w := unsignedWidth(x.Type()); w > 0 {
 						nb = nb.mask(w)
+					} else if w := signedWidth(x.Type()); w > 0 && nb.mask(w).B[w-1].K == bZero {
+						nb = nb.mask(w) // a non-negative value keeps its bits in a signed type
 					} else {
 						nb = nil
 					}
@@ -2044,6 +2097,11 @@ func (it *Interp) convert(s *State, fr *Frame, x *ssa.Convert) AV {
 		if b, ok := dst.(*types.Basic); ok {
 			switch {
 			case b.Info()&types.IsFloat != 0:
+				if sb, ok := x.X.Type().Underlying().(*types.Basic); ok && b.Kind() == types.Float32 && sb.Kind() != types.Float32 && !v.Known {
+					// narrowing rounds: the result is no longer the value that came in
+					it.nextSym++
+					return FloatV{Opq: v.Opq, Finite: v.Finite, Sym: it.nextSym}
+				}
 				return v
 			case b.Info()&types.IsInteger != 0:
 				if v.Known && !math.IsNaN(v.V) && math.Abs(v.V) < 1e18 {
@@ -2169,6 +2227,10 @@ func (it *Interp) lookup(s *State, fr *Frame, x *ssa.Lookup) AV {
 		vt = x.Type()
 	}
 	if x.CommaOk {
+		if it.Precise && types.TypeString(vt, nil) == "error" {
+			// a table of error sentinels: what is found is not nil (the value is only meaningful when ok)
+			return TupleV{Vals: []AV{nonNilError(), BoolV{T: true, F: true, Opq: true}}}
+		}
 		return TupleV{Vals: []AV{topOf(vt, true), BoolV{T: true, F: true, Opq: true}}}
 	}
 	return topOf(vt, true)
